@@ -122,7 +122,8 @@ func (p *Parser) Read() (*base.T, error) {
 		'!',
 		'|',
 		'=',
-		'.':
+		'.',
+		'`':
 
 		t = base.MakeIdentifier(string(p.token))
 
